@@ -8,7 +8,20 @@ WT=$(mktemp -d /tmp/hbv-try.XXXXXX)
 git -C /repo worktree add -q --detach $WT HEAD || exit 2
 cd $WT
 if ! git apply $P 2>/dev/null; then
-  echo "PATCH-DOES-NOT-APPLY"; git -C /repo worktree remove --force $WT; exit 3
+  echo "PATCH-DOES-NOT-APPLY"; # drop the fact cache of this scratch tree
+python3 - "$WT" <<'PY'
+import sys, os, shutil
+sys.path.insert(0, os.path.join(os.path.dirname(os.path.abspath("hbv")), "engine"))
+try:
+    import extract
+    p = extract.facts_path("default", sys.argv[1])
+    d = os.path.dirname(p)
+    if os.path.isdir(d) and os.path.basename(os.path.dirname(d)) == ".cache":
+        shutil.rmtree(d)
+except Exception:
+    pass
+PY
+git -C /repo worktree remove --force $WT; exit 3
 fi
 PROPS="$@"
 if [ -z "$PROPS" ]; then PROPS=$(python3 -c "import json,sys;print(' '.join(c['property_id'] for c in json.load(open(sys.argv[1]))['checks']))" $VERIF/MANIFEST.json); fi
@@ -18,4 +31,17 @@ for p in $PROPS; do
   rc=$?
   echo "$p rc=$rc $(echo "$OUT" | grep -E '^\s+\[R-|^UNDECIDED' | head -3 | tr '\n' ' ' | cut -c1-400)"
 done
+# drop the fact cache of this scratch tree
+python3 - "$WT" <<'PY'
+import sys, os, shutil
+sys.path.insert(0, os.path.join(os.path.dirname(os.path.abspath("hbv")), "engine"))
+try:
+    import extract
+    p = extract.facts_path("default", sys.argv[1])
+    d = os.path.dirname(p)
+    if os.path.isdir(d) and os.path.basename(os.path.dirname(d)) == ".cache":
+        shutil.rmtree(d)
+except Exception:
+    pass
+PY
 git -C /repo worktree remove --force $WT
